@@ -17,5 +17,6 @@ for p in $out/patch*.diff; do
     if echo "$o" | grep -q "VIOLATION\|Traceback\|REPO-DOES-NOT-BUILD"; then res="$res $c:ALARM"; echo "$o" | cut -c1-600 | head -6 > /tmp/harm_alarm_${id}_$(basename $p .diff)_$c.txt; else res="$res $c:ok"; fi
   done
   git -C $R checkout -- .
+  for c in $checks; do git -C $V checkout -- evidence/$c.json 2>/dev/null; done
   echo "$id $(basename $p) [$files]:$res"
 done
